@@ -55,6 +55,10 @@ type c17Pool struct {
 	// tokens of an extension profile whose decoder decodes a nested token
 	nestedCBOR [][]byte
 	nestedCOSE [][]byte
+	// byte-string VALUES that several goroutines pass to the setters of their
+	// own private objects (a constant implementation id, a shared signer id):
+	// index 0..5 = impl id, boot seed, nonce, instance id, measurement, signer id
+	sharedVals [][]byte
 }
 
 type c17Spec struct {
@@ -103,6 +107,9 @@ func buildPool(sp c17Spec) (*c17Pool, error) {
 			p.keys = append(p.keys, bare, other)
 		}
 	}
+	p.sharedVals = [][]byte{
+		bytes.Repeat([]byte{0x11}, 32), bytes.Repeat([]byte{0x22}, 32), bytes.Repeat([]byte{0x33}, 48),
+		append([]byte{0x01}, bytes.Repeat([]byte{0x44}, 32)...), bytes.Repeat([]byte{0x55}, 64), bytes.Repeat([]byte{0x66}, 32)}
 	for i, m := range sp.Models {
 		// shared claims in three construction routes
 		switch i % 3 {
@@ -288,7 +295,7 @@ type c17Op struct {
 }
 
 var c17Kinds = []string{"dec-nested", "dec-mutate", "ev-verify-all", "ev-verify-all", "claims-read-all", "dec-dup", "dec-dup", "dec-val-long", "dec-val-long", "reuse", "reuse", "ext-dec-cbor", "ext-dec-json", "ext-bad", "ext-bad", "synth", "synth", "new", "dec-cbor", "dec-json", "dec-cose", "validate", "getter", "getters", "enc-cbor", "enc-json", "venc-cbor", "venc-json",
-	"ev-json", "ev-verify", "ev-ids", "sign", "vsign", "setters", "serialize", "populate"}
+	"ev-json", "ev-verify", "ev-ids", "sign", "vsign", "setters", "setters-shared", "setters-shared", "serialize", "populate"}
 
 func idx(n, k int) int { return ((k % n) + n) % n }
 
@@ -532,6 +539,24 @@ func runOp(p *c17Pool, o c17Op) string {
 		}
 		b, err := psatoken.ValidateAndEncodeClaimsToCBOR(c)
 		return fmt.Sprintf("%x/%v", b, err != nil)
+	case "setters-shared":
+		// a private object; the byte-string VALUES handed to its setters are
+		// the same slices every other goroutine hands to its own objects
+		name := P1Name
+		if o.A%2 == 1 {
+			name = P2Name
+		}
+		c, err := psatoken.NewClaims(name)
+		if err != nil {
+			return "err:" + err.Error()
+		}
+		v := p.sharedVals
+		sw := &psatoken.SwComponent{}
+		errs := []error{c.SetClientID(int32(o.B)), c.SetSecurityLifeCycle(0x3000), c.SetImplID(v[0]), c.SetBootSeed(v[1]), c.SetNonce(v[2]), c.SetInstID(v[3]),
+			sw.SetMeasurementValue(v[4]), sw.SetSignerID(v[5])}
+		errs = append(errs, c.SetSoftwareComponents([]psatoken.ISwComponent{sw}))
+		b, err := psatoken.ValidateAndEncodeClaimsToCBOR(c)
+		return fmt.Sprintf("%x/%v/%v", b, err != nil, errs)
 	case "serialize":
 		s := p.shapes[idx(len(p.shapes), o.A)]
 		b1, e1 := encoding.SerializeStructToCBOR(hem, s)
@@ -570,7 +595,7 @@ func raceLogSize() int64 {
 var progSerial int
 
 func TestC17_Concurrent(t *testing.T) {
-	st := NewStats("C17", "TestC17_Concurrent", "rapid draws a PROGRAM: a pool of shared objects (3..8 claims-sets of both profiles and both extension profiles, valid and invalid, built as literals / decoded / extension instances; decoded Evidence; CBOR, JSON and COSE byte buffers; keys of 4 algorithms) and 16..48 goroutine scripts of 10..60 operations each from {NewClaims, decode CBOR/JSON/COSE(+Verify), Validate, single getter, all getters, encode and validate-and-encode CBOR/JSON on SHARED claims, MarshalJSON / Verify / Get*ID on SHARED Evidence, Sign / ValidateAndSign on a private Evidence holding SHARED claims, setter sequences on private objects, embedding-aware serialise / populate, decoding of extension-profile tokens (CBOR and JSON dispatch), decodes that FAIL inside the embedding-aware helpers (duplicate key, text key, nested tags, truncation), and serialise+populate of a synthetic struct type that no codec has seen before this program}. The concurrent run comes first (cold per-type / per-process caches), the sequential reference on a fresh pool last. The scripts start together behind a barrier (GOMAXPROCS=16) in a binary built with -race. Oracle: (1) no race-detector report (the detector's log file is inspected after every program), (2) every operation's rendered result equals that of the same script run sequentially on a fresh copy of the pool (for signing: payload equals the encoding, token verifies independently and on the signing Evidence). Non-trivial = at least two goroutines used the same shared object; distinct = program hash. Sampling of schedules, not enumeration")
+	st := NewStats("C17", "TestC17_Concurrent", "rapid draws a PROGRAM: a pool of shared objects (3..8 claims-sets of both profiles and both extension profiles, valid and invalid, built as literals / decoded / extension instances; decoded Evidence; CBOR, JSON and COSE byte buffers; keys of 4 algorithms) and 16..48 goroutine scripts of 10..60 operations each from {NewClaims, decode CBOR/JSON/COSE(+Verify), Validate, single getter, all getters, encode and validate-and-encode CBOR/JSON on SHARED claims, MarshalJSON / Verify / Get*ID on SHARED Evidence, Sign / ValidateAndSign on a private Evidence holding SHARED claims, setter sequences on private objects (also with byte-string VALUES that all goroutines share: a constant implementation id, signer id ...), embedding-aware serialise / populate, decoding of extension-profile tokens (CBOR and JSON dispatch), decodes that FAIL inside the embedding-aware helpers (duplicate key, text key, nested tags, truncation), and serialise+populate of a synthetic struct type that no codec has seen before this program}. The concurrent run comes first (cold per-type / per-process caches), the sequential reference on a fresh pool last. The scripts start together behind a barrier (GOMAXPROCS=16) in a binary built with -race. Oracle: (1) no race-detector report (the detector's log file is inspected after every program), (2) every operation's rendered result equals that of the same script run sequentially on a fresh copy of the pool (for signing: payload equals the encoding, token verifies independently and on the signing Evidence). Non-trivial = at least two goroutines used the same shared object; distinct = program hash. Sampling of schedules, not enumeration")
 	st.Require = []string{"shared-claims-contended", "shared-evidence-contended"}
 	defer st.Flush(t)
 	if !raceEnabled {
